@@ -371,6 +371,99 @@ static int guard_free(void *p)
 }
 void vf_alloc_guard(int on) { a_guard = on; }
 
+/* recycle mode: a freed block is handed out again by the very next request of the same size (LIFO per size), the way a
+ * plain malloc behaves -- ASan's quarantine would otherwise keep a freed address out of circulation and hide anything
+ * that depends on an address being reused (a cache keyed on a pointer that outlives the object).  Parked blocks are
+ * poisoned, so a use after free is still reported. */
+#if defined(__has_feature)
+#if __has_feature(address_sanitizer)
+#define VF_ASAN 1
+#endif
+#endif
+#ifdef __SANITIZE_ADDRESS__
+#define VF_ASAN 1
+#endif
+#ifdef VF_ASAN
+void __asan_poison_memory_region(void const volatile *addr, size_t size);
+void __asan_unpoison_memory_region(void const volatile *addr, size_t size);
+#define POISON(p, n) __asan_poison_memory_region(p, n)
+#define UNPOISON(p, n) __asan_unpoison_memory_region(p, n)
+#else
+#define POISON(p, n) ((void)0)
+#define UNPOISON(p, n) ((void)0)
+#endif
+#define RC_MAXSZ 8192
+#define RC_TAB (1 << 16)
+static int a_recycle;
+static struct { void *p; size_t n; } rc_tab[RC_TAB];   /* live blocks handed out in recycle mode (open addressing) */
+static long rc_tab_used, rc_tombs;
+static struct { void **v; int n, cap; } rc_bucket[RC_MAXSZ + 1];
+static long rc_reused;
+static unsigned rc_slot(void *p) { return (unsigned)(((uintptr_t)p >> 4) * 2654435761u) & (RC_TAB - 1); }
+static void rc_tab_add(void *p, size_t n)
+{
+	if (rc_tab_used > RC_TAB / 2)
+		return;   /* table full: the block is simply not recycled later */
+	unsigned i = rc_slot(p);
+	while (rc_tab[i].p && rc_tab[i].p != (void *)-1)
+		i = (i + 1) & (RC_TAB - 1);
+	if (rc_tab[i].p)
+		rc_tombs--;
+	rc_tab[i].p = p;
+	rc_tab[i].n = n;
+	rc_tab_used++;
+}
+static void rc_tab_rehash(void)
+{
+	static struct { void *p; size_t n; } tmp[RC_TAB / 2 + 1];
+	long k = 0;
+	for (unsigned i = 0; i < RC_TAB; i++)
+		if (rc_tab[i].p && rc_tab[i].p != (void *)-1) {
+			tmp[k].p = rc_tab[i].p;
+			tmp[k++].n = rc_tab[i].n;
+		}
+	memset(rc_tab, 0, sizeof rc_tab);
+	rc_tab_used = 0;
+	rc_tombs = 0;
+	for (long j = 0; j < k; j++)
+		rc_tab_add(tmp[j].p, tmp[j].n);
+}
+static size_t rc_tab_take(void *p)
+{
+	unsigned i = rc_slot(p);
+	while (rc_tab[i].p) {
+		if (rc_tab[i].p == p) {
+			size_t n = rc_tab[i].n;
+			rc_tab[i].p = (void *)-1;
+			rc_tab_used--;
+			if (++rc_tombs > RC_TAB / 4)
+				rc_tab_rehash();
+			return n;
+		}
+		i = (i + 1) & (RC_TAB - 1);
+	}
+	return 0;
+}
+void vf_alloc_recycle(int on)
+{
+	a_recycle = on;
+	if (on)
+		return;
+	for (int s = 0; s <= RC_MAXSZ; s++) {
+		for (int k = 0; k < rc_bucket[s].n; k++) {
+			UNPOISON(rc_bucket[s].v[k], s);
+			free(rc_bucket[s].v[k]);
+		}
+		free(rc_bucket[s].v);
+		rc_bucket[s].v = NULL;
+		rc_bucket[s].n = rc_bucket[s].cap = 0;
+	}
+	if (rc_tab_used == 0)
+		return;
+	/* blocks still live keep their entries until they are freed */
+}
+long vf_alloc_reused(void) { return rc_reused; }
+
 static void *vf_malloc(size_t n)
 {
 	if (vf_alloc_hook)
@@ -380,7 +473,20 @@ static void *vf_malloc(size_t n)
 		a_failed++;
 		return NULL;
 	}
-	void *p = a_guard ? guard_alloc(n ? n : 1) : malloc(n ? n : 1);
+	if (!n)
+		n = 1;
+	void *p;
+	if (a_recycle && !a_guard && n <= RC_MAXSZ) {
+		if (rc_bucket[n].n > 0) {
+			p = rc_bucket[n].v[--rc_bucket[n].n];
+			UNPOISON(p, n);
+			rc_reused++;
+		} else
+			p = malloc(n);
+		if (p)
+			rc_tab_add(p, n);
+	} else
+		p = a_guard ? guard_alloc(n) : malloc(n);
 	if (p)
 		a_live++;
 	return p;
@@ -393,6 +499,20 @@ static void vf_free(void *p)
 		a_live--;
 	if (p && a_guard && guard_free(p))
 		return;
+	if (p && rc_tab_used > 0) {
+		size_t n = rc_tab_take(p);
+		if (n) {
+			if (a_recycle) {
+				if (rc_bucket[n].n == rc_bucket[n].cap) {
+					rc_bucket[n].cap = rc_bucket[n].cap ? rc_bucket[n].cap * 2 : 8;
+					rc_bucket[n].v = realloc(rc_bucket[n].v, sizeof(void *) * rc_bucket[n].cap);
+				}
+				rc_bucket[n].v[rc_bucket[n].n++] = p;
+				POISON(p, n);
+				return;
+			}
+		}
+	}
 	free(p);
 }
 void vf_alloc_install(void) { jwt_set_alloc(vf_malloc, vf_free); }
